@@ -715,6 +715,12 @@ def setitem(eng, obj, idx, v, st, line=0):
         if m is not None:
             yield from eng.call(BoundMethod(obj, m), [idx, v], {}, st, line)
             return
+    if isinstance(obj, dict) and isinstance(idx, SV):
+        t = z3.simplify(idx.t)  # a key that is a literal integer / string behind a symbolic wrapper
+        if z3.is_app(t) and t.decl().name() == "int" and z3.is_int_value(t.arg(0)):
+            idx = t.arg(0).as_long()
+        elif z3.is_app(t) and t.decl().name() == "str" and z3.is_string_value(t.arg(0)):
+            idx = t.arg(0).as_string()
     if isinstance(obj, dict) and not isinstance(idx, SV):
         obj[idx] = v  # concrete local dict (not shared across forks: copied below)
         yield st, None
